@@ -2,6 +2,7 @@
 import re
 
 import mir
+import keys as K
 from rulebase import rule
 from rules.loops import header_phi, leaves, is_carry, is_const_num
 from pertuple import mentions_loopphi
@@ -541,3 +542,128 @@ def r_str_slice(cx):
                   "character there panics" % (name, [mir.show(b, maxd=3)[:40] for b in bounds]), cx.where(t["span"]))
             k += 1
     cx.count("R-STR-SLICE", "slices", n)
+
+
+# ---------------------------------------------------------------------------------------------------------------------
+# R-SLICE-INDEX-GUARD (C09): list-valued parameters are indexed only after their length has been checked
+
+def _len_of(t):
+    """if t is the length of a slice S (PtrMetadata(S) or <[T]>::len(S) / Vec::len): return S"""
+    if t[0] == "un" and t[1] == "PtrMetadata":
+        return t[2]
+    if t[0] == "call" and isinstance(t[1], str) and t[1].rsplit("::", 1)[-1] == "len" and len(t[2]) == 1:
+        return t[2][0]
+    return None
+
+
+def _same_slice(a, b):
+    return mir.strip_refs(a) == mir.strip_refs(b)
+
+
+def _safe_successor(f, g, S, k):
+    """if block g ends in a branch on a comparison of len(S) with a constant that establishes len > k on one side,
+    return that successor"""
+    t = f.term(g)
+    if t["k"] != "switch":
+        return None
+    c = f.operand(t["discr"], f.end_point(g))
+    if c[0] != "bin" or c[1] not in ("Ne", "Eq", "Lt", "Le", "Gt", "Ge"):
+        return None
+    op, a, b = c[1], c[2], c[3]
+    la, lb = _len_of(a), _len_of(b)
+    if la is not None and is_const_int(b):
+        n = b[2]
+    elif lb is not None and is_const_int(a):
+        # const <op> len  ==  len <flipped op> const
+        n = a[2]
+        la = lb
+        op = {"Lt": "Gt", "Le": "Ge", "Gt": "Lt", "Ge": "Le"}.get(op, op)
+    else:
+        return None
+    if not _same_slice(la, S):
+        return None
+    false_bb = None
+    for v, bb in t["targets"]:
+        if v == 0:
+            false_bb = bb
+    true_bb = t["otherwise"]
+    if op == "Ne" and n > k:
+        return false_bb
+    if op == "Eq" and n > k:
+        return true_bb
+    if op == "Lt" and n >= k + 1:
+        return false_bb
+    if op == "Le" and n >= k:
+        return false_bb
+    if op == "Gt" and n >= k:
+        return true_bb
+    if op == "Ge" and n >= k + 1:
+        return true_bb
+    return None
+
+
+def is_const_int(t):
+    return t[0] == "const" and isinstance(t[2], int) and not isinstance(t[2], bool)
+
+
+def _from_series(t, depth=0):
+    """key of the list-valued parameter the slice term is read from, if any"""
+    found = []
+
+    def v(x):
+        if x[0] == "call" and isinstance(x[1], str) and x[1] in (K.PP + "::series", K.PP + "::texts") and len(x[2]) > 1:
+            k = K._const_key(x[2][1])
+            if k:
+                found.append(k)
+            return False
+        return True
+
+    mir.walk(t, v)
+    return found[0] if found else None
+
+
+@rule("R-SLICE-INDEX-GUARD", ["C09"])
+def r_slice_index_guard(cx):
+    """In an operator constructor, a list-valued parameter (`params.series(key)`) has whatever length the user wrote.
+    Every constant index into it must be dominated by a test of its length that makes the index valid; otherwise a
+    short list panics in Context::op instead of giving an error."""
+    reg = cx.registry()
+    n = 0
+    for cpath, c in sorted(reg.ctors.items()):
+        mod = cpath.rsplit("::", 1)[0] + "::"
+        # apply-time functions read the lists the constructor stored (fixed length by construction): not judged here
+        apply = set(reg.reachable_from([x for x in (c.fwd, c.inv) if x], follow_virtual=False))
+        for g in sorted(reg.reachable_from([cpath], follow_virtual=False)):
+            if not g.startswith(mod) or g in apply:
+                continue
+            f = cx.f.fn(g)
+            for bb in sorted(f.reachable()):
+                t = f.term(bb)
+                if t["k"] != "assert" or t.get("msg") != "BoundsCheck" or "const" in t["len"]:
+                    continue
+                idx = f.operand(t["index"], f.end_point(bb))
+                if not is_const_int(idx):
+                    continue
+                ln = f.operand(t["len"], f.end_point(bb))
+                S = _len_of(ln)
+                if S is None:
+                    continue
+                key = _from_series(S)
+                if key is None:
+                    continue
+                n += 1
+                k = idx[2]
+                ok = False
+                for gb in sorted(f.reachable()):
+                    if not f.dominates(gb, bb) or gb == bb:
+                        continue
+                    s = _safe_successor(f, gb, S, k)
+                    if s is not None and f.dominates(s, bb) and len(f.pred[s]) == 1:
+                        ok = True
+                        break
+                cx.ob("R-SLICE-INDEX-GUARD", "%s/%s[%d]" % (g, key, k), ok,
+                      "%s: `%s[%d]` is reached only after a length test that makes it valid" % (g, key, k) if ok else
+                      "%s indexes the list parameter `%s` at [%d] without a dominating test of its length: a shorter "
+                      "list (e.g. `%s=1`) panics at instantiation instead of being rejected" % (g, key, k, key),
+                      cx.where(t["span"]))
+    cx.count("R-SLICE-INDEX-GUARD", "sites", n)
